@@ -139,7 +139,10 @@ func ctxEntries() []entry {
 		{"Decimal.Abs", func(c *apd.Context, x, y *apd.Decimal, q int) *apd.Decimal { return new(apd.Decimal).Abs(x) }},
 		{"Decimal.Neg", func(c *apd.Context, x, y *apd.Decimal, q int) *apd.Decimal { return new(apd.Decimal).Neg(x) }},
 		{"Decimal.Set", func(c *apd.Context, x, y *apd.Decimal, q int) *apd.Decimal { return new(apd.Decimal).Set(x) }},
-		{"Decimal.Reduce", func(c *apd.Context, x, y *apd.Decimal, q int) *apd.Decimal { d, _ := new(apd.Decimal).Reduce(x); return d }},
+		{"Decimal.Reduce", func(c *apd.Context, x, y *apd.Decimal, q int) *apd.Decimal {
+			d, _ := new(apd.Decimal).Reduce(x)
+			return d
+		}},
 		{"Decimal.Cmp", func(c *apd.Context, x, y *apd.Decimal, q int) *apd.Decimal {
 			if x.Form < apd.NaNSignaling && y.Form < apd.NaNSignaling {
 				x.Cmp(y)
